@@ -4,6 +4,7 @@ R17.1 results collected in completion order reach the returned list only through
       the sort covers exactly the scope in which those indices are unique;
 R17.2 `fun` is applied exactly once per element on each of the two paths; no handler swallows its exception;
 R17.3 chunked: yield at counter == size, fresh list and counter reset together, one increment per append, non-empty tail.
+R17.8 the display arguments (desc, total, smoothing) reach only the progress bar;  R17.3 also reads `for i, x in enumerate(iterable)`.
 """
 from __future__ import annotations
 
